@@ -139,7 +139,13 @@ pub fn gen_case(seed: u64, idx: u64, corpus: &Corpus) -> Case {
     }
     if r.chance(1, 8) { let a = words[0].clone(); let b = rand_word(&mut r, &wc); words[0] = format!("{a} {b}"); }
     let (groups, fam): (Vec<Vec<String>>, &'static str) = match family {
-        0 | 1 | 2 | 3 => { let ng = r.range(1, 2); ((0..ng).map(|_| (0..r.range(1, 2)).map(|_| plain(&rand_rule(&mut r, &RuleCfg::default()))).collect()).collect(), "grammar") }
+        0 | 1 | 2 | 3 => {
+            let ng = r.range(1, 2);
+            let asts: Vec<Vec<Rule>> = (0..ng).map(|_| (0..r.range(1, 2)).map(|_| rand_rule(&mut r, &RuleCfg::default())).collect()).collect();
+            // half of these get a word instantiated from the first rule, so that the rule gets deep into matching and transforming
+            if r.chance(1, 2) { if let Some(w) = witness_word(&asts[0][0], &mut r) { let k = r.below(words.len()); words[k] = w; } }
+            (asts.iter().map(|g| g.iter().map(plain).collect()).collect(), "grammar")
+        }
         4 | 5 | 6 if !corpus.rules.is_empty() => { let k = r.below(4); let base = r.pick(&corpus.rules).clone(); (vec![vec![mutate(&mut r, corpus, &base, k)]], "token-mutant") }
         7 => { let base = plain(&rand_rule(&mut r, &RuleCfg::default())); let k = r.range(1, 3); (vec![vec![mutate(&mut r, corpus, &base, k)]], "grammar-mutant") }
         8 => (vec![vec![noise(&mut r, 24)]], "noise"),
